@@ -607,6 +607,8 @@ class CaseResult:
     start_error: str | None = None
     record: Any = None  # PersistentHandler after quiescence
     record_late: Any = None  # after the idle timers have fired
+    cancel_result: Any = None  # what cancel_handler answered for a handler that had been released while idle
+    released_at_cancel: bool = False
     record_restart: Any = None  # after a process crash and `_on_server_start` on a fresh stack over the same store
     restart_writes: list = field(default_factory=list)
     entered: list = field(default_factory=list)  # event type names that entered the server adapter for the run
@@ -786,6 +788,19 @@ def run_case(case: dict) -> CaseResult:
                 res.outcome, res.outcome_detail = "timeout", str(e)
             except asyncio.CancelledError:
                 res.outcome = "aborted"
+                if idle_timeout:
+                    # released from memory while idle: keep going (sends through the service reload it), then cancel it
+                    res.notes.append("released while idle")
+                    for _ in range(4):
+                        await asyncio.sleep(idle_timeout * 1.5)
+                    state["done"] = True
+                    if case.get("cancel_after_release"):
+                        try:
+                            res.cancel_result = await st.cancel("h1")
+                        except Exception as e:
+                            res.cancel_result = f"error:{type(e).__name__}"
+                        res.released_at_cancel = not st.active(hd.run_id)
+                        await asyncio.sleep(10)
             except InjectedFault as e:
                 res.outcome, res.outcome_detail = "store_fault", str(e)
             except live.RunawayRun:
